@@ -1,6 +1,13 @@
 #!/usr/bin/env python3
 """Regenerate MANIFEST.json from props.json (single source of per-property text)."""
-import json, os
+import json, os, subprocess
+
+
+def hook_commits():
+    """commits of /repo that add the verif-tagged hook files (subject starts with 'verif')"""
+    out = subprocess.run(["git", "-C", "/repo", "log", "--reverse", "--format=%h %s", "20b8332..HEAD"], capture_output=True, text=True).stdout
+    return [l.split()[0] for l in out.splitlines() if l.split(" ", 1)[1].lower().startswith("verif")]
+
 ROOT = os.path.dirname(os.path.dirname(os.path.abspath(__file__)))
 props = {f[:-5]: json.load(open(os.path.join(ROOT, "props", f))) for f in sorted(os.listdir(os.path.join(ROOT, "props"))) if f.endswith(".json")}
 ids = [json.loads(l)["id"] for l in open(os.path.join(ROOT, "properties.jsonl"))]
@@ -28,7 +35,7 @@ m = {
         "guard": "verif",
         "enable": "go build -tags verif (files named verif_export.go, //go:build verif, add-only exports)",
         "baseline_off_cmd": "cd /repo && go build ./... && go test -vet=off -count=1 -timeout 25m ./...",
-        "source_commits": json.load(open(os.path.join(ROOT, "hooks.json")))["commits"] if os.path.exists(os.path.join(ROOT, "hooks.json")) else [],
+        "source_commits": hook_commits(),
         "add_only": True,
     },
     "engines": [{
